@@ -134,6 +134,21 @@ fn tool_readings(text: &str) -> Result<(Option<Mirror>, Option<Mirror>), String>
     Ok((a, b))
 }
 
+/// Signature of a unit whose scale is none of the accepted ones.  The two open findings (Dalton, Pint: wrong values
+/// pinned by the repository's own tests) are keyed on the *value* the pinned tree gives: the same unit with yet
+/// another value is a different violation.
+fn scale_signature(variant: &str, si: &BigRational, exponent: i64) -> String {
+    let pinned: Option<BigRational> = match variant {
+        "Dalton" => Some(parse_rat("332107813321/200000000000")),
+        "Pint" => Some(parse_rat("473176473/250000000000")),
+        _ => None,
+    };
+    match pinned.and_then(|p| crate::tool::rpow(&p, exponent)) {
+        Some(p) if p != *si => format!("definition-scale:{}:another-value", variant),
+        _ => format!("definition-scale:{}", variant),
+    }
+}
+
 fn check_definition(variant: &str) -> CaseReport {
     let v = vocab();
     let u = v.unit(variant);
@@ -171,7 +186,7 @@ fn check_definition(variant: &str) -> CaseReport {
                 } else {
                     CaseReport::fail(
                         key,
-                        format!("definition-scale:{}", variant),
+                        scale_signature(variant, &si, 1),
                         json!({"query": q, "got": si.to_string(), "accepted": u.scales.iter().map(|s| s.to_string()).collect::<Vec<_>>()}),
                     )
                 }
@@ -220,7 +235,7 @@ fn check_definition_power(variant: &str, n: i32) -> CaseReport {
                 if u.scales.iter().any(|s| crate::tool::rpow(s, n as i64).map(|x| x == si).unwrap_or(false)) {
                     CaseReport::pass(key, true, vec![if n < 0 { "definition-negative-power" } else { "definition-positive-power" }])
                 } else {
-                    CaseReport::fail(key, format!("definition-scale:{}", variant), json!({"query": q, "got": si.to_string(), "power": n, "accepted_at_power_one": u.scales.iter().map(|s| s.to_string()).collect::<Vec<_>>()}))
+                    CaseReport::fail(key, scale_signature(variant, &si, n as i64), json!({"query": q, "got": si.to_string(), "power": n, "accepted_at_power_one": u.scales.iter().map(|s| s.to_string()).collect::<Vec<_>>()}))
                 }
             }
             _ => CaseReport::fail(key, format!("definition-power-cast-fails:{}", variant), json!({"query": q, "got": results_json(&rs)})),
@@ -249,7 +264,7 @@ fn check_definition_context(variant: &str, target: &Dim) -> CaseReport {
                 if mirror_dim(&val.unit) == Some(u.dim) && u.scales.iter().any(|s| *s == si) {
                     CaseReport::pass(key, true, vec!["definition-in-cast-context(same dimension)"])
                 } else {
-                    CaseReport::fail(key, format!("definition-scale:{}", variant), json!({"query": q, "got": si.to_string()}))
+                    CaseReport::fail(key, scale_signature(variant, &si, 1), json!({"query": q, "got": si.to_string()}))
                 }
             }
             [R::Err { .. }] => {
@@ -286,7 +301,7 @@ fn check_definition_divisor(variant: &str) -> CaseReport {
                 if mirror_dim(&val.unit) == Some(dim) && u.scales.iter().any(|s| s.recip() == si) {
                     CaseReport::pass(key, true, vec!["definition-as-divisor"])
                 } else {
-                    CaseReport::fail(key, format!("definition-scale:{}", variant), json!({"query": q, "got": si.to_string(), "accepted": u.scales.iter().map(|s| s.recip().to_string()).collect::<Vec<_>>()}))
+                    CaseReport::fail(key, scale_signature(variant, &si, -1), json!({"query": q, "got": si.to_string(), "accepted": u.scales.iter().map(|s| s.recip().to_string()).collect::<Vec<_>>()}))
                 }
             }
             _ => CaseReport::fail(key, format!("definition-divisor-cast-fails:{}", variant), json!({"query": q, "got": results_json(&rs)})),
